@@ -49,6 +49,10 @@ def file_desc(draw, nested=False):
                       'custom': 'keep me'}
     elif r == 1:
         f['stats'] = {'custom': [1, 2]}
+    elif r == 2 and draw(hs.booleans()):
+        # custom keys named like the figures of the levels above
+        f['stats'] = {'files': draw(hs.integers(1, 12)), 'changes': 3,
+                      'lines changed': 2}
 
     f['other_meta'] = draw(hs.sampled_from([{}, {'path': 'f'},
                                             {'path': {'old': 'a',
@@ -64,7 +68,8 @@ def file_desc(draw, nested=False):
                 if item[0] != 'marker' and item[1] not in SAFE_PAYLOADS:
                     item[1] = b'payload'
 
-            if e['hunk']['context'] not in (None, b'def f():', b''):
+            if e['hunk']['context'] is not None and \
+                    not e['hunk']['context'].isascii():
                 e['hunk']['context'] = b'ctx'
 
         f['diff'] = d
@@ -448,8 +453,12 @@ def cases(draw):
     for _ in range(draw(hs.integers(0, 4))):
         c = {'files': draw(hs.lists(file_desc(), max_size=4))}
 
-        if draw(hs.integers(0, 2)) == 0:
+        r = draw(hs.integers(0, 5))
+
+        if r in (0, 1):
             c['stats'] = {'files': 42, 'vendor': {'x': 1}}
+        elif r == 2:
+            c['stats'] = {'changes': 5, 'insertions': 1000}
 
         c['encoding'] = draw(hs.sampled_from([None, None, 'utf-16',
                                               'utf-32', 'ascii']))
